@@ -48,4 +48,75 @@ def gpvOpsOfBlock (cfg : Cfg) (st : Storage) (c : Caches) (h : Nat) (txs : List 
   let r := txsDrops (onPersist cfg { st := st, c := c } h) txs
   r.2 ++ (if isEpochStart cfg h then rewardAux cfg r.1 (voterReward cfg gas) 0 r.1.c.neo.committee else [])
 
+-- the consumers of the records: BalanceHeight and LastGasPerVote of the NEO account states ---------------------------
+
+/-- reward-per-vote records together with the reward fields (BalanceHeight, LastGasPerVote) of every NEO account record -/
+structure RState where
+  gpv : GpvState
+  acc : List (Acct × (Nat × Int))
+deriving DecidableEq, Repr
+
+/-- distributeGas (native_neo.go:642-657) in a block of index `h` for an existing account voting for `voteTo`: nothing if
+    already distributed in this block, else BalanceHeight := h and, for a voter, LastGasPerVote := getLatestGASPerVote
+    (cache first) -/
+def dist (h : Nat) (voteTo : Option Key) (s : RState) (a : Acct) : RState :=
+  match alGet s.acc a with
+  | none => s
+  | some (bh, last) =>
+    if bh == h then s
+    else { s with acc := alPut s.acc a (h, match voteTo with | some k => gpvLookup s.gpv k | none => last) }
+
+def applyDrops (ops : List GpvOp) (s : RState) : RState := { s with gpv := gpvRun s.gpv ops }
+
+/-- LastGasPerVote := the record of the new vote target (cache first), or 0 when the vote is withdrawn -/
+def setLast (a : Acct) (to : Option Key) (s : RState) : RState :=
+  match alGet s.acc a with
+  | none => s
+  | some (bh, _) => { s with acc := alPut s.acc a (bh, match to with | some k => gpvLookup s.gpv k | none => 0) }
+
+/-- voteInternalUnchecked (native_neo.go:1044-1115) on an existing account voting for `vt` so far: distribute (reads the
+    OLD target's record), ModifyAccountVotes may drop the old target's records (`ops`), then the new target is read;
+    `pub != acc.VoteTo` compares pointers of two freshly decoded keys, so a vote for a candidate ALWAYS re-reads -/
+def voteEv (h : Nat) (vt : Option Key) (ops : List GpvOp) (a : Acct) (to : Option Key) (s : RState) : RState :=
+  setLast a to (applyDrops ops (dist h vt s a))
+
+/-- nep17 transfer → NEO.increaseBalance (native_neo.go:593-632) for the sender (voting for `vs`, record exists iff
+    `hs`), then the receiver (`vd`, `hd`); a zero / self transfer only touches the sender -/
+def transferEv (h : Nat) (vs vd : Option Key) (hs hd : Bool) (ops : List GpvOp) (src dst : Acct) (amt : Int) (s : RState) : RState :=
+  if src == dst || amt == 0 then (if hs then dist h vs s src else s)
+  else
+    let s := applyDrops ops (dist h vs s src)
+    if hd then dist h vd s dst else { s with acc := alPut s.acc dst (h, 0) }
+
+/-- what one transaction of block `h` does to the records and the reward fields; `w` / `w1` = the natives world before /
+    after it, `r` its result -/
+def txRewards (h : Nat) (w w1 : World) (tx : Tx) (r : Res) (s : RState) : RState :=
+  let drops := (droppedKeys w.st.cands w1.st.cands).map GpvOp.drop
+  let vt := fun (a : Acct) => (alGet w.st.accounts a).bind Bal.voteTo
+  let has := fun (a : Acct) => (alGet w.st.accounts a).isSome
+  let s' :=
+    match tx.op, r with
+    | _, .fault => s
+    | _, .skip => s
+    | .neoTransfer src dst amt, .haltTrue => transferEv h (vt src) (vt dst) (has src) (has dst) drops src dst amt s
+    | .vote a to, .haltTrue => voteEv h (vt a) drops a to s
+    | .block a, .haltTrue => if has a then voteEv h (vt a) drops a none s else applyDrops drops s      -- RevokeVotes
+    | .destroy c, .halt => if !w.st.blocked.contains c && has c then voteEv h (vt c) drops c none s else applyDrops drops s
+    | .recoverNeo a tr _, .haltTrue =>
+      transferEv h (vt a) (vt tr) (has a) (has tr) drops a tr (((alGet w.st.accounts a).map Bal.balance).getD 0) s
+    | _, _ => applyDrops drops s
+  -- a record whose balance reached zero is deleted with its reward fields
+  { s' with acc := s'.acc.filter fun e => (alGet w1.st.accounts e.1).isSome }
+
+def txsRewards (h : Nat) (w : World) (s : RState) : List Tx → World × RState
+  | [] => (w, s)
+  | tx :: rest =>
+    let p := execTx w tx
+    txsRewards h p.1 (txRewards h w p.1 tx p.2 s) rest
+
+/-- block `h`: the transactions' effects, then the accumulation of PostPersist (as `gpvOpsOfBlock`) -/
+def rewardsOfBlock (cfg : Cfg) (st : Storage) (c : Caches) (h : Nat) (txs : List Tx) (gas : Int) (s : RState) : RState :=
+  let r := txsRewards h (onPersist cfg { st := st, c := c } h) s txs
+  applyDrops (if isEpochStart cfg h then rewardAux cfg r.1 (voterReward cfg gas) 0 r.1.c.neo.committee else []) r.2
+
 end NeoModel.Ledger.Reward
